@@ -118,6 +118,27 @@ UNITS.append(Unit("public.try_acquire_for", "public.c", defines=["U_TRY_ACQUIRE_
                       Call(r"(?<![\w.>:])try_acquire_until(?!\s*\(\s*self\b)", "try_acquire_until(self, {0})", None)])},
                   funcs=[HPP + ": pika::counting_semaphore<>::try_acquire_for"], min_obligations=5))
 
+# ---- public sliding_semaphore_var<> forwarders (added by main after seeded change C08-6 was missed) ----
+SHPP = "libs/pika/synchronization/include/pika/synchronization/sliding_semaphore.hpp"
+PUBS_RULES = [
+    Sub(r"std::move\((\w+)\)", r"ulock_move(&\1)", None),
+    Call(r"sem_\.set_max_difference", "d_set_max_difference(&self->sem_, &{0}, {1}, {2})", None),
+    Call(r"sem_\.signal_all", "d_signal_all(&self->sem_, {0})", None),
+    Call(r"sem_\.signal", "d_signal(&self->sem_, {0}, {1})", None),
+    Call(r"sem_\.try_wait", "d_try_wait(&self->sem_, &{0}, {1})", None),
+    Call(r"sem_\.wait", "d_wait(&self->sem_, &{0}, {1})", None),
+    Guard(r"std::unique_lock<mutex_type> (\w+)\((\w+)\);", r"struct ulock \1 = ulock_make(&self->\2);", r"ulock_dtor(&\1);", None),
+]
+for nm, pat, defs in [("set_max_difference", r"void set_max_difference\(std::int64_t max_difference, std::int64_t lower_limit = 0\)", "U_SET_MAX_DIFFERENCE"),
+                      ("wait", r"void wait\(std::int64_t upper_limit\)", "U_WAIT"),
+                      ("try_wait", r"bool try_wait\(std::int64_t upper_limit = 1\)", "U_TRY_WAIT"),
+                      ("signal", r"void signal\(std::int64_t lower_limit\)", "U_SIGNAL"),
+                      ("signal_all", r"std::int64_t signal_all\(\)", "U_SIGNAL_ALL")]:
+    UNITS.append(Unit("public.sliding." + nm, "public_sliding.c", defines=[defs], enforce=nm,
+                      lifts={"body": Lift(SHPP, pat, rules=PUBS_RULES)},
+                      funcs=[SHPP + ": pika::sliding_semaphore_var<>::" + nm], min_obligations=5,
+                      doc="T: one lock acquisition, one call of the detail function with the lock held and the caller's arguments in their order, result passed through, lock released"))
+
 META = {
     "trusted_base": [
         "specs/C08/sem.h cv_wait/cv_wait_until/cv_notify_one/cv_size: contract of detail::condition_variable as seen by a "
